@@ -862,6 +862,7 @@ def correspondence(run):
     if not run.quick and run.proof.get("ok"):
         coqchk(run)
     correspondence_identity(run)
+    correspondence_limit(run)
     cases = all_cases(run, run.n(1500, 30000))
     for i, c in enumerate(cases):
         kinds = tree_kinds(c.tin, set())
@@ -957,6 +958,7 @@ def oracle(run, deep):
                     run.fail("violation", "`$` does not give the JSON-like document back in canonical container types", bad)
     oracle_input(run, deep)
     oracle_histories(run, deep)
+    oracle_subclasses(run)
     oracle_engines(run, deep)
     # O3: random host values of every constructor straight into the finaliser
     for _ in range(run.n(800, 15000) * (3 if deep else 1)):
@@ -1245,6 +1247,137 @@ def shared_mutables(res, forbidden=None):
 
 
 # --------------------------------------------------------------------------
+# the limiter argument: yaql.limitIterators = N during finalisation  (Model/ConvertLim.v)
+# --------------------------------------------------------------------------
+LHEADER = "From YV Require Import Model.Convert Model.ConvertLim."
+
+
+def lim_observe(path, obj, t2l, s2l, N):
+    from yaql.language import exceptions as yexc
+    extra = {"yaql.limitIterators": N} if N is not None else {}
+    if path == "direct":
+        e = eng_for(t2l, s2l, **extra)
+        c = ctx()
+        f = lambda: utils.convert_output_data(obj, c("#iter", e), e)
+    else:
+        e = eng_for(t2l, s2l, **dict(extra, **{"yaql.convertInputData": False}))
+        f = lambda: e("$").evaluate(data=obj, context=ctx())
+    try:
+        r = f()
+    except yexc.CollectionTooLargeException:
+        return ("toolarge",), None
+    except TypeError:
+        return ("err", "PyType"), None
+    except Exception as ex:
+        return ("other", type(ex).__module__ + "." + type(ex).__name__), None
+    try:
+        return ("val", tree(r, None, drain=True)), r
+    except Unsupported as ex:
+        return ("other", "unprintable result: %s" % ex), r
+
+
+def lcase_term(t2l, s2l, N, tin, obs):
+    o = {"val": lambda: "(LOVal %s)" % term(obs[1]), "toolarge": lambda: "LOTooLarge",
+         "err": lambda: "LOPyType", "other": lambda: "LOOther"}[obs[0]]()
+    return "{| l_opts := %s; l_limit := %s; l_in := %s; l_obs := %s |}" % (
+        opts_term(t2l, s2l), gal.opt(N, gal.nat), term(tin), o)
+
+
+def limit_case(spec, path, t2l, s2l, N):
+    reg = {}
+    obj = build(spec, reg)
+    tin = tree(obj, reg)
+    obs, res = lim_observe(path, obj, t2l, s2l, N)
+    return tin, obs, res
+
+
+def correspondence_limit(run):
+    rng = run.rng
+    cases, meta = [], []
+    for _ in range(run.n(300, 6000)):
+        spec = gen_spec(rng, rng.choice([1, 2, 3, 3]))
+        path = rng.choice(["direct", "direct", "dollar_raw"])
+        N = rng.choice([0, 1, 1, 2, 2, 3, 5, None])
+        for (t2l, s2l) in OPTS:
+            tin, obs, res = limit_case(spec, path, t2l, s2l, N)
+            cases.append(lcase_term(t2l, s2l, N, tin, obs))
+            meta.append((spec, path, t2l, s2l, N, tin, obs, res))
+            run.case(("limit", path, t2l, s2l, N, spec), nontrivial=tree_depth(tin) >= 2)
+            run.count("kind:KLim/%s" % path)
+            run.count("limit-obs:" + obs[0])
+    nrep = 0
+    for i in run.coq_mismatches(LHEADER, "lcase", "lcase_ok", cases, shard=150):
+        spec, path, t2l, s2l, N, tin, obs, res = meta[i]
+        d = {"kind": "limit", "path": path, "origin": {"spec": spec}, "limit": N,
+             "options": {"convertTuplesToLists": t2l, "convertSetsToLists": s2l},
+             "input_tree": jtree(tin), "observed": obs_json(obs)}
+        bad = census(res, t2l, s2l) if obs[0] == "val" else []
+        if bad:
+            d["offending_nodes"] = bad[:10]
+            run.fail("violation", "result of finalisation is not plain data: it contains a %s" % bad[0][1], d)
+        elif nrep < 5:
+            nrep += 1
+            try:
+                d["model_says"] = run.coq_eval(LHEADER, "co_lim (count_lim %s) %s %s" % (
+                    gal.opt(N, gal.nat), opts_term(t2l, s2l), term(tin)))[-800:]
+            except Exception as ex:
+                d["model_says"] = repr(ex)
+            run.fail("mismatch", "limited finalisation: model and implementation disagree via %s" % path, d)
+
+
+# --------------------------------------------------------------------------
+# host documents made of tuple / list / dict SUBCLASSES (namedtuple, OrderedDict, defaultdict, ...)
+# --------------------------------------------------------------------------
+_P = collections.namedtuple("_P", "x y")
+
+
+class _L(list):
+    pass
+
+
+class _D(dict):
+    pass
+
+
+def subclass_docs():
+    """(document built from subclasses, the same document built from plain list / tuple / dict)"""
+    od = collections.OrderedDict
+    return [
+        (_P(1, [2]), (1, [2])),
+        (od([("b", 1), ("a", (2,))]), {"b": 1, "a": (2,)}),
+        (collections.defaultdict(list, {"k": [1, _P(2, 3)]}), {"k": [1, (2, 3)]}),
+        (_L([1, (2,), _D(a=_L())]), [1, (2,), {"a": []}]),
+        ({"p": _P(_P(1, 2), od()), "o": od(a=_L([1])), "c": collections.Counter("aab")},
+         {"p": ((1, 2), {}), "o": {"a": [1]}, "c": {"a": 2, "b": 1}}),
+        (collections.ChainMap({"a": 1}, {"b": [2]}), dict(collections.ChainMap({"a": 1}, {"b": [2]}))),
+        (collections.deque([1, [2]]), None),       # a deque is a Sequence for convert_input_data: only judged by the census
+    ]
+
+
+def oracle_subclasses(run):
+    """with input conversion on (the default) a document built from container subclasses comes back
+    exactly like the same document built from plain containers"""
+    for sub, plain in subclass_docs():
+        for (t2l, s2l) in OPTS:
+            for path in ("dollar", "iface", "iface_stub", "dollar_newctx"):
+                obs, exc, res = run_dollar(path, sub, t2l, s2l)
+                run.cov["evaluations"] += 1
+                run.count("O:subclass-" + obs[0])
+                bad = census(res, t2l, s2l) if obs[0] == "val" else [("$", "raised " + repr(obs))]
+                if not bad and plain is not None:
+                    want = run_dollar(path, plain, t2l, s2l)[2]
+                    if shape_of(want) != shape_of(res):
+                        bad = [("$", "differs from the plain document's result %r" % (want,))]
+                if bad:
+                    run.fail("violation", "a host document made of container subclasses is not returned as plain data",
+                             {"kind": "subclass", "document": repr(sub)[:300], "path": path,
+                              "options": {"convertTuplesToLists": t2l, "convertSetsToLists": s2l},
+                              "observed": repr(res)[:400] if obs[0] == "val" else list(obs), "problems": [list(b) for b in bad[:5]],
+                              "required": "namedtuple / list subclass -> list (tuple if convertTuplesToLists is off), "
+                                          "OrderedDict / defaultdict / Counter / ChainMap / dict subclass -> dict, exact types"})
+
+
+# --------------------------------------------------------------------------
 # histories: statement reuse across contexts, engines created and dropped in sequence
 # --------------------------------------------------------------------------
 CTX_KINDS = ["std", "std_child", "std_grandchild", "bare", "sandbox", "custom_fin"]
@@ -1508,6 +1641,19 @@ def replay(run, data):
     if d.get("kind") == "identity":
         c = ICase(d["origin"]["spec"], d["path"], t2l, s2l)
         return c.verdict() is None and not run.coq_mismatches(IHEADER, "icase", "icase_ok", [c.term()])
+    if d.get("kind") == "limit":
+        tin, obs, res = limit_case(d["origin"]["spec"], d["path"], t2l, s2l, d["limit"])
+        if obs[0] == "val" and census(res, t2l, s2l):
+            return False
+        return not run.coq_mismatches(LHEADER, "lcase", "lcase_ok", [lcase_term(t2l, s2l, d["limit"], tin, obs)])
+    if d.get("kind") == "subclass":
+        import core
+        r2 = core.Run("C10", "quick", 0)
+        try:
+            oracle_subclasses(r2)
+        finally:
+            r2.cleanup()
+        return not r2.failures
     if d.get("kind") == "history":
         return history_check(None, d["origin"]["expr"], d["origin"]["datas"], t2l, s2l, d["steps"]) is None
     if d.get("kind") == "engines":
